@@ -216,3 +216,60 @@ def ob_canary(modname, qualname, contracts_mod):
 
 def _zero_obligations():
     return {"status": "error", "detail": "zero obligations generated"}
+
+
+# ---- block contracts (mechanically extracted loop bodies, vlib/vblock.py) -------------------------------------------------------
+
+_BLOCK_CACHE = {}
+
+
+def block_obligations(blocks_mod, name):
+    from vlib import vblock as VB
+
+    key = (blocks_mod, name)
+    if key not in _BLOCK_CACHE:
+        b = importlib.import_module(blocks_mod).BLOCKS[name]
+        f = get_function(*b["function"])
+        src, target, line = VB.extract_loop_body(f, b["loop"][0], b["loop"][1], name, b["params"], b["returns"])
+        eng = V.Engine(f, dict(b["contract"], name=name), {}, {"_np": None}, source=src)
+        obs = eng.generate()
+        _BLOCK_CACHE[key] = (obs, sorted(set(eng.opaque_log)), src)
+    return _BLOCK_CACHE[key]
+
+
+def ob_block(blocks_mod, name, index):
+    obs, opaque, src = block_obligations(blocks_mod, name)
+    ob = obs[index]
+    verdict, backend, dt, model = V.discharge(ob)
+    if verdict == "proved":
+        return proved(backend, "unsat of the negated goal" if not ob.expect_sat else "satisfiable")
+    if verdict in ("cover-unknown",):
+        return proved("native-witness", "sat query undetermined")
+    if verdict == "vacuous":
+        if ob.kind.startswith("pre-sat"):
+            return {"status": "error", "backend": backend, "detail": "vacuity guard: the block precondition of %s is unsatisfiable" % name}
+        return proved(backend, "branch unreachable on this (joined) path")
+    if verdict == "refuted":
+        return violated("block contract of %s refuted by %s: %s" % (name, backend, ob.name), backend=backend,
+                        replay={"confirmed": False, "solver_model": str(model)[:3000] if model is not None else None, "block_source": src},
+                        signature="block/%s/%s" % (name, ob.kind.split("[")[0]))
+    return undecided("solver unknown on %s" % ob.name, backend=backend)
+
+
+def add_block(run, blocks_mod, name):
+    b = importlib.import_module(blocks_mod).BLOCKS[name]
+    f = get_function(*b["function"])
+    try:
+        obs, opaque, src = block_obligations(blocks_mod, name)
+    except (V.Unsupported, LookupError) as ex:
+        run.add("%s::extractable" % name, "post", lambda m=str(ex), n=name: undecided("block %s is outside the V-engine subset / not found: %s" % (n, m)))
+        return
+    run.under_contract(f, qualname="%s.%s [block %s]" % (b["function"][0], b["function"][1], name),
+                       dropped="everything but the body of the loop `for ... in %s` #%d (block contract per iteration); expressions outside the V-engine subset evaluate to "
+                               "unconstrained values: %s; numba decorator; mathematical integers" % (b["loop"][0], b["loop"][1], opaque))
+    posts = [i for i, o in enumerate(obs) if not o.kind.startswith("cover")]
+    if not [i for i in posts if obs[i].kind.startswith("post")]:
+        run.add("%s::no-obligations" % name, "post", _zero_obligations)
+    for i in posts:
+        k = obs[i].kind.split("[")[0]
+        run.add(obs[i].name, {"pre-sat": "pre-sat"}.get(k, "post" if k == "post" else k), ob_block, blocks_mod, name, i)
